@@ -180,7 +180,15 @@ class MetadataManager:
                     )
 
                 # PHASE 2: Prepare new version
-                new_metadata.last_updated_ms = int(datetime.now().timestamp() * 1000)
+                # last_updated_ms is the OCC stamp the next committer validates
+                # against, so it must change with EVERY commit - also when two
+                # commits land in the same millisecond (or the clock steps back).
+                # Otherwise a metadata-only commit (same current_snapshot_id) is
+                # invisible to a concurrent committer holding a stale base.
+                now_ms = int(datetime.now().timestamp() * 1000)
+                if current and now_ms <= current.last_updated_ms:
+                    now_ms = current.last_updated_ms + 1
+                new_metadata.last_updated_ms = now_ms
 
                 # Read current version (and, on CAS backends, the hint's ETag so
                 # the commit point below can be a true compare-and-swap).
